@@ -29,7 +29,13 @@ Inductive kstep :=
    in .git/git-bug, and whether anything else below .git differs from what it was when the step began (looked at
    only when a holder was alive then; false otherwise) *)
 Record sobs := mkso { so_step : kstep; so_lock : lk; so_alive : list nat; so_tmps : list nat; so_changed : bool }.
-Record case := mkLcase { l_steps : list sobs }.
+(* l_others: the processes that ran under the second account (uid 65534), the rest under the harness's own (root when
+   there is a second one): for an unprivileged opener kill(holder, 0) answers EPERM when the holder is somebody else's.
+   The model's prediction does not depend on who owns what — liveness is existence (Lock.open_u_exists: the open under
+   the [Exists] reading, for any assignment of owners, is Lock.open_atomic) — and neither does the property: [agrees]
+   and [C19_ok] below read l_steps only, so a refusal that needs the right to signal the holder shows as a mismatch
+   and as a property failure. [explain] says whether the opener and the holder of the first bad step differ in user. *)
+Record case := mkLcase { l_others : list nat; l_steps : list sobs }.
 
 (* ---- equality tests ---- *)
 Definition lk_match (l : option lockc) (o : lk) : bool :=
@@ -242,4 +248,21 @@ Fixpoint first_bad (H : list nat) (L : lk) (T : list nat) (steps : list sobs) (i
   | [] => None
   | o :: t => if step_ok H L T o then first_bad (so_alive o) (so_lock o) (so_tmps o) t (S i) else Some i
   end.
-Definition explain (c : case) := (divergence c, first_bad [] LkNone [] (l_steps c) 0).
+(* the process(es) a step starts *)
+Definition actors (k : kstep) : list nat :=
+  match k with
+  | KCmd id _ _ _ _ | KHold id _ _ _ _ | KKillAt id _ _ _ _ => [id]
+  | KBurst _ os => map (fun o => fst (fst o)) os
+  | _ => []
+  end.
+Definition owner (c : case) (id : nat) : nat := if mem id (l_others c) then 1 else 0.
+(* at the first step where the property is false: (step, live holders before it, does an opener belong to another user than a holder) *)
+Definition cross_at (c : case) : option (nat * list nat * bool) :=
+  match first_bad [] LkNone [] (l_steps c) 0 with
+  | None => None
+  | Some i =>
+      let H := match i with 0 => [] | S j => so_alive (nth j (l_steps c) (mkso (KPlant 0) LkNone [] [] false)) end in
+      let A := actors (so_step (nth i (l_steps c) (mkso (KPlant 0) LkNone [] [] false))) in
+      Some (i, H, existsb (fun a => existsb (fun h => negb (Nat.eqb (owner c a) (owner c h))) H) A)
+  end.
+Definition explain (c : case) := (divergence c, first_bad [] LkNone [] (l_steps c) 0, cross_at c).
